@@ -66,11 +66,13 @@ def macroStep (h : Pipe.Host) (tok : String) : Option Pipe.Host :=
   | ("pick", none) => if h.cur.isNone then none else h.step .pick
   | ("burst", none) =>   -- several fill() calls at once (32 in the model): all pass the first check, then take the write lock one by one
       if h.cur.isNone then none else some (repeatStep (repeatStep h .fillCheck 32) .fillGo 32)
-  | ("up", none) => h.step .up
+  -- addHost (the harness does not call it once Session.Close has returned); between policyConnPool.Close() and
+  -- s.cancel() it finds the pool map closed and does nothing
+  | ("up", none) => if h.cancelled then none else h.step .up
   -- N concurrent addHost callers (spin barrier / parked on the locks addHost takes): whatever the order in which they
   -- get the mutex, the first registers (or finds) the pool and fills it, the others find it (Reg: C17_one_pool_per_host)
-  | ("ups", some n) => if n = 0 then none else (h.step .up).map fun h' => repeatStep h' .up (n - 1)
-  | ("upp", some n) => if n = 0 then none else (h.step .up).map fun h' => repeatStep h' .up (n - 1)
+  | ("ups", some n) => if n = 0 || h.cancelled then none else (h.step .up).map fun h' => repeatStep h' .up (n - 1)
+  | ("upp", some n) => if n = 0 || h.cancelled then none else (h.step .up).map fun h' => repeatStep h' .up (n - 1)
   | ("down", none) => if h.cur.isNone then none else h.step .down
   | ("pclose", none) => if h.cur.isNone then none else h.step .pclose
   | ("sclose", none) =>
@@ -159,8 +161,9 @@ def runDebMacro (st : WDeb × List Nat) : List String → List String
   pipeobs kind=… size=N maxconns=M orphans=O closedconns=C [hostconns=H] afterclose=J leaked=L stack=… stalled=S [lateadd=A lateopen=K] sched=…
       the monitors of one pipeline scenario → accept | reject:<clause>  (C17_pipe_pool_bound, C17_one_pool_per_host
       [hostconns: open sockets of the host across ALL pool objects at a drained quiescent point], C17_pipe_no_conn_after_close,
-      C17_pipe_session_close_leaves_nothing_partial [afterclose / leaked do not count the pool an addHost registered inside
-      Session.Close — lateadd > 0 is the excluded class of that theorem, lateopen its connections], C17_hs_reporters_terminate)
+      C17_pipe_session_close_leaves_nothing [afterclose / leaked count EVERYTHING that is open / left after Session.Close;
+      lateadd = pools found registered after policyConnPool.Close() — C17_pipe_closed_session_registers_nothing wants 0 —,
+      lateopen = the open connections of such a pool (informative)], C17_hs_reporters_terminate)
   hsmodel <code|buf> act …   the setupConn result protocol → final state or `stuck`
   poolobs size=N maxconns=M maxopen=K final=F afterclose=J
       what a monitor goroutine saw on a real Session: the largest len(pool.conns), the largest number of
@@ -173,10 +176,9 @@ def runDebMacro (st : WDeb × List Nat) : List String → List String
   deb : act act …      a conducted schedule of one refreshDebouncer (acts: now deb fin finE stop; refreshFn is held by the
       harness until fin/finE) → `<flusher>:<one letter per waiter>` after every action (p pending, r result, e error
       result, c closed channel), initial state first
-  debobs waiters=N stranded=S late=L latestranded=M stopret=B exited=B sched=…   monitors of one debouncer schedule:
-      a waiter registered before the flusher returned that is never released (C17_waiters_released_partial), stop()
-      returns (C17_debouncer_stop_returns), the flusher exits (C17_flusher_exits); `late` waiters (refreshNow after the
-      flusher returned) are the excluded class of the _partial theorem (C17_cex_waiter_after_exit)
+  debobs waiters=N stranded=S late=L stopret=B exited=B sched=…   monitors of one debouncer schedule: a waiter — whenever
+      it was registered, `late` of them after the flusher had returned — that is never released (C17_waiters_released),
+      stop() returns (C17_debouncer_stop_returns), the flusher exits (C17_flusher_exits)
   debwait rounds=R early=E stranded=S stophung=H flusherleft=F    the same monitors over racing rounds
   sessref waiters=N returned=M closeret=B leaked=L stack=… open=O    Session.refreshRing callers pending across Session.Close -/
 def step (_ : Unit) (ws : List String) : Unit × String :=
@@ -198,6 +200,7 @@ def step (_ : Unit) (ws : List String) : Unit × String :=
         else if o > 0 then s!"reject:open-socket-outside-open-pool-{o}"
         else if j > 0 then s!"reject:open-after-close-{j}"
         else if l > 0 then s!"reject:goroutines-left-in-gocql-{l}:{(kvs r "stack").getD "?"}"
+        else if (kv r "lateadd").getD 0 > 0 then s!"reject:pool-registered-after-policyConnPool.Close-{(kv r "lateadd").getD 0}"
         else if st > 0 then "reject:no-quiescence"
         else "accept"
       | _, _, _, _, _, _, _ => "bad-op"
